@@ -9,7 +9,8 @@ use identity_document::document::CoreDocument;
 use serde_json::{json, Map, Value};
 
 const NOW: i64 = 1_900_000_000;
-const PATHS: [&str; 3] = ["/vc/credentialSubject/name", "/vc/credentialSubject/degree", "/vc/credentialStatus"];
+/// bit 3: the issuer claim itself is selectively disclosable (always disclosed when concealed: the model reads the claims after decoding)
+const PATHS: [&str; 4] = ["/vc/credentialSubject/name", "/vc/credentialSubject/degree", "/vc/credentialStatus", "/iss"];
 fn b64(x: &[u8]) -> String { identity_jose::jwu::encode_b64(x) }
 fn compact(header: &Value, payload: &[u8], sigkey: i64) -> String { format!("{}.{}.{}", b64(&serde_json::to_vec(header).unwrap()), b64(payload), b64(&key_bytes(sigkey))) }
 /// the claims of a credential whose subject carries two concealable members
@@ -189,8 +190,8 @@ pub fn gen(rng: &mut Rng, thorough: bool, sink: &mut Sink) {
     sink.case(case, if tamper == 0 { "sd-credential" } else { "sd-credential-tampered" });
   };
   for conceal in 0..8 { for disclose in 0..8 { if disclose & !conceal != 0 { continue; } for tamper in 0..10 { emit1(&base_case(), conceal, disclose, tamper, sink); } } }
-  for (_, fs) in &muts { for f in fs { let mut c = base_case(); f(&mut c); for (conceal, disclose) in [(7, 7), (7, 0), (5, 1), (3, 2)] { emit1(&c, conceal, disclose, 0, sink); } emit1(&c, 7, 7, 1, sink); } }
-  for _ in 0..(if thorough { 6000 } else { 700 }) { let mut c = base_case(); for (k, (_, fs)) in muts.iter().enumerate() { if rng.chance(if k < 7 { 1 } else { 3 }, 8) { rng.pick(fs)(&mut c); } } let conceal = rng.range(0, 7); let disclose = rng.range(0, 7) & conceal; emit1(&c, conceal, disclose, if rng.chance(1, 3) { rng.range(1, 5) } else { 0 }, sink); }
+  for (_, fs) in &muts { for f in fs { let mut c = base_case(); f(&mut c); for (conceal, disclose) in [(7, 7), (7, 0), (5, 1), (3, 2), (8, 8), (15, 15), (13, 9)] { emit1(&c, conceal, disclose, 0, sink); } emit1(&c, 7, 7, 1, sink); } }
+  for _ in 0..(if thorough { 6000 } else { 700 }) { let mut c = base_case(); for (k, (_, fs)) in muts.iter().enumerate() { if rng.chance(if k < 7 { 1 } else { 3 }, 8) { rng.pick(fs)(&mut c); } } let iss = if rng.chance(1, 4) { 8 } else { 0 }; let conceal = rng.range(0, 7) | iss; let disclose = (rng.range(0, 7) & conceal) | iss; emit1(&c, conceal, disclose, if rng.chance(1, 3) { rng.range(1, 5) } else { 0 }, sink); }
   // (1b) verify_signature over several trusted issuers (both orders, with and without the right one): kind 3
   let emit3 = |c: &C02Case, conceal: i64, disclose: i64, tamper: i64, sink: &mut Sink| {
     let eff = C02Case { vc: effective(&c.vc, conceal, disclose), ..c.clone() };
@@ -200,7 +201,7 @@ pub fn gen(rng: &mut Rng, thorough: bool, sink: &mut Sink) {
   };
   for order in 0..5 { for (_, fs) in &muts[..7] { for f in fs { let mut c = base_case(); f(&mut c);
     c.issuers = match order { 0 => vec![crate::c02::other_issuer(), crate::c02::base_issuer()], 1 => vec![crate::c02::base_issuer(), crate::c02::other_issuer()], 2 => vec![crate::c02::other_issuer()], 3 => vec![crate::c02::base_issuer()], _ => vec![] };
-    for (conceal, disclose, tamper) in [(7, 7, 0), (7, 0, 0), (3, 1, 1)] { emit3(&c, conceal, disclose, tamper, sink); } } } }
+    for (conceal, disclose, tamper) in [(7, 7, 0), (7, 0, 0), (3, 1, 1), (8, 8, 0), (15, 15, 0)] { emit3(&c, conceal, disclose, tamper, sink); } } } }
   for _ in 0..(if thorough { 4000 } else { 400 }) { let mut c = base_case(); for (_, fs) in &muts[..7] { if rng.chance(1, 3) { rng.pick(fs)(&mut c); } }
     c.issuers = if rng.chance(1, 2) { vec![crate::c02::other_issuer(), crate::c02::base_issuer()] } else { vec![crate::c02::base_issuer(), crate::c02::other_issuer()] };
     let conceal = rng.range(0, 7); let disclose = rng.range(0, 7) & conceal; emit3(&c, conceal, disclose, if rng.chance(1, 4) { rng.range(1, 5) } else { 0 }, sink); }
